@@ -323,7 +323,7 @@ func newEventFromUntrustedJSONV1(eventJSON []byte, roomVersion IRoomVersion) (PD
 		}
 	}
 
-	if err := json.Unmarshal(eventJSON, &res); err != nil {
+	if err := json.Unmarshal(eventJSON, res); err != nil {
 		return nil, err
 	}
 
@@ -371,7 +371,7 @@ func newEventFromUntrustedJSONV1(eventJSON []byte, roomVersion IRoomVersion) (PD
 
 func newEventFromTrustedJSONV1(eventJSON []byte, redacted bool, roomVersion IRoomVersion) (PDU, error) {
 	res := &eventV1{}
-	if err := json.Unmarshal(eventJSON, &res); err != nil {
+	if err := json.Unmarshal(eventJSON, res); err != nil {
 		return nil, err
 	}
 
@@ -387,7 +387,7 @@ func newEventFromTrustedJSONV1(eventJSON []byte, redacted bool, roomVersion IRoo
 
 func newEventFromTrustedJSONWithEventIDV1(eventID string, eventJSON []byte, redacted bool, roomVersion IRoomVersion) (PDU, error) {
 	res := &eventV1{}
-	if err := json.Unmarshal(eventJSON, &res); err != nil {
+	if err := json.Unmarshal(eventJSON, res); err != nil {
 		return nil, err
 	}
 
